@@ -19,7 +19,7 @@ GenPrefixesQuick == GenPrefixes \ {Pfx(4, 16, 2)}
 GenPrefixesThorough == GenPrefixes \cup {Def6, Pfx(4, 16, 3), Pfx(6, 21, 6), Pfx(6, 0, 0)}
 GenClassLists == {<<Cl("true", 1)>>, <<Cl("tos", 0), Cl("true", 1)>>, <<Cl("tos", 1), Cl("false", 1)>>,
                   <<Cl("false", 1), Cl("true", 0)>>}
-GenPkts == {P(4, d, t, 0) : d \in 0..63, t \in {0, 184}} \cup
+GenPkts == {P(4, d, 0, 0) : d \in 0..63} \cup {P(4, d, 184, 0) : d \in {0, 5, 15, 16, 19, 20, 21, 22, 23, 24, 31, 32, 40, 63}} \cup
            {P(4, 21, 0, 1), P(4, 21, 184, 2), P(4, 0, 0, 2), P(4, 40, 184, 1)} \cup
            {P(6, d, t, 0) : d \in {0, 21, 31, 32, 63}, t \in {0, 184}} \cup
            {P(4, 0 - 1, 0, 0), P(4, 0 - 1, 184, 0), P(4, 0 - 2, 0, 1), P(6, 0 - 1, 0, 0)}   \* outside the embedded space
